@@ -87,7 +87,8 @@ def write_cases(cases, path, rng=None, variants=False):
                 nlin = rng.choice([None, 2, 0])                      # some classes stored as lookup classes
                 ver = rng.choice([0x00020000, 0x00030000, 0x00040000])
             classes = CLS
-            m = gdl.font_model(c["prog"], classes, ADV, GATTR, c["rtl"], nlinear=nlin, nfeat=len(c.get("feats", [])))
+            # every other font carries the pass-skip bits a compiler would compute: the engine then leaves passes out
+            m = gdl.font_model(c["prog"], classes, ADV, GATTR, c["rtl"], nlinear=nlin, nfeat=len(c.get("feats", [])), passbits=(k % 2 == 1))
             d = dict(c)
             d["id"] = "c%d" % k
             d["font_hex"] = gfont.build_font(m, silf_version=ver).hex()
